@@ -63,6 +63,14 @@ v("C01", "recheck-in-recorder-removed", "keep", [], [("log.go",
   "\t// Step 1: check if logging is enabled for this level.\n\tif !logger.GetLevel().Enable(level) {\n\t\treturn\n\t}\n",
   "")])
 
+v("C01", "gate-helper-extracted", "keep", [], [("plugin_logger.go",
+  "func (c *SyncLogger) Append(e *Event) {\n\tif c.Level.Enable(e.Level) {",
+  "func (c *LoggerBase) enabled(e *Event) bool { return c.Level.Enable(e.Level) }\n\nfunc (c *SyncLogger) Append(e *Event) {\n\tif c.enabled(e) {"),
+  ("plugin_logger.go", "func (c *AsyncLogger) Append(e *Event) {\n\tif c.Level.Enable(e.Level) {", "func (c *AsyncLogger) Append(e *Event) {\n\tif c.enabled(e) {")])
+v("C04", "gate-helper-extracted", "keep", [], [("plugin_logger.go",
+  "func (c *AsyncLogger) Append(e *Event) {\n\tif c.Level.Enable(e.Level) {",
+  "func (c *LoggerBase) enabled(e *Event) bool { return c.Level.Enable(e.Level) }\n\nfunc (c *AsyncLogger) Append(e *Event) {\n\tif c.enabled(e) {")])
+
 # ---------------------------------------------------------------- C02
 v("C02", "rebind-only-unbound", "break", ["C02.rebind"], [("log_refresh.go",
   "\tfor tag, obj := range tagRegistry {\n\t\tobj.logger = findLoggerForTag(tag)\n\t}",
